@@ -282,11 +282,19 @@ def IVal.dynTy : IVal → Ty
   | .str _ => .str
   | .dec _ => .null   -- never stored: every cast of a decimal yields another variant
 
-/-- `InsertExecutor`: every table column gets `cast(declared, value-or-null)`; the first failing
-cast fails the statement (nothing is appended). No nullability check exists. -/
+/-- One column of `InsertExecutor`: `cast(declared, value-or-null)`, then (since /repo 652f6b6)
+a NULL for a NOT NULL / PRIMARY KEY column fails the statement. -/
+def castCol (d : ColDecl) (v : IVal) : KOut IVal :=
+  match castI d.ty v with
+  | .ok x => if x == .null && !d.nullable then .err else .ok x
+  | .err => .err
+  | .panic => .panic
+
+/-- `InsertExecutor`: every table column gets `castCol`; the first failure fails the statement
+(nothing is appended). -/
 def castRow : List ColDecl → List IVal → KOut (List IVal)
   | d :: ds, v :: vs =>
-    match castI d.ty v with
+    match castCol d v with
     | .ok x => match castRow ds vs with
       | .ok r => .ok (x :: r)
       | .err => .err
@@ -380,11 +388,8 @@ def Ty.kind : Ty → String
   | .null => "null" | .bool => "bool" | .int _ => "int" | .str => "string"
 
 /-- Reason tags of one column (why the stored / returned value is not what the property says). -/
-def colTags (e : Engine) (d : ColDecl) (v : IVal) : List String :=
-  if v == .null && !d.nullable then
-    [match e with
-      | .mem => "notnull:not-enforced:null-stored"
-      | .disk => "notnull:not-enforced:null-read-as-default"]
+def colTags (_e : Engine) (d : ColDecl) (v : IVal) : List String :=
+  if v == .null && !d.nullable then []   -- rejected by INSERT since /repo 652f6b6
   else match castI d.ty v with
     | .ok v' => if lossy v v' then ["insert:lossy-cast:" ++ v.kind ++ "->" ++ d.ty.kind] else []
     | _ => []
